@@ -6,20 +6,19 @@ use alloc::{vec, vec::Vec};
 use ixdtf::parsers::records::{TimeZoneRecord, UtcOffsetRecord};
 use num_traits::ToPrimitive;
 
-use crate::builtins::core::duration::DateDuration;
 use crate::parsers::{
     parse_allowed_timezone_formats, parse_identifier, parse_offset, FormattableOffset,
     FormattableTime, Precision,
 };
 use crate::provider::{TimeZoneOffset, TimeZoneProvider};
 use crate::{
-    builtins::core::{duration::normalized::NormalizedTimeDuration, Instant},
+    builtins::core::Instant,
     iso::{IsoDate, IsoDateTime, IsoTime},
     options::Disambiguation,
     time::EpochNanoseconds,
     TemporalError, TemporalResult, ZonedDateTime,
 };
-use crate::{Calendar, Sign};
+use crate::Sign;
 
 const NS_IN_HOUR: i128 = 60 * 60 * 1000 * 1000 * 1000;
 
@@ -269,97 +268,57 @@ impl TimeZone {
             return Err(TemporalError::range().with_message("Rejecting ambiguous time zones."));
         }
 
-        // NOTE: Below is rather greedy, but should in theory work.
-        //
-        // Primarily moving hour +/-3 to account Australia/Troll as
-        // the precision of before/after does not entirely matter as
-        // long is it is distinctly before / after any transition.
+        // 6-15. The offsets in force on either side of the transition that skipped `iso`.
+        let local = iso.as_unchecked_nanoseconds();
+        let (offset_before, offset_after) = self.gap_offsets_around(local, provider)?;
+        // 16. If disambiguation is earlier, the reading is moved back by the size of the
+        //     gap and resolved before the transition; otherwise (compatible or later) it is
+        //     moved forward by the size of the gap and resolved after the transition.
+        // 17-25. Both amount to interpreting the reading with the offset of the other side.
+        let epoch_ns = if disambiguation == Disambiguation::Earlier {
+            local - offset_after
+        } else {
+            local - offset_before
+        };
+        EpochNanoseconds::try_from(epoch_ns)
+    }
 
-        // 6. Let before be the latest possible ISO Date-Time Record for
-        //    which CompareISODateTime(before, isoDateTime) = -1 and !
-        //    GetPossibleEpochNanoseconds(timeZone, before) is not
-        //    empty.
-        let before = iso.add_date_duration(
-            Calendar::default(),
-            &DateDuration::default(),
-            NormalizedTimeDuration(-3 * NS_IN_HOUR),
-            None,
-        )?;
-
-        // 7. Let after be the earliest possible ISO Date-Time Record
-        //    for which CompareISODateTime(after, isoDateTime) = 1 and !
-        //    GetPossibleEpochNanoseconds(timeZone, after) is not empty.
-        let after = iso.add_date_duration(
-            Calendar::default(),
-            &DateDuration::default(),
-            NormalizedTimeDuration(3 * NS_IN_HOUR),
-            None,
-        )?;
-
-        // 8. Let beforePossible be !
-        //    GetPossibleEpochNanoseconds(timeZone, before).
-        // 9. Assert: beforePossible's length is 1.
-        let before_possible = self.get_possible_epoch_ns_for(before, provider)?;
-        debug_assert_eq!(before_possible.len(), 1);
-        // 10. Let afterPossible be !
-        //     GetPossibleEpochNanoseconds(timeZone, after).
-        // 11. Assert: afterPossible's length is 1.
-        let after_possible = self.get_possible_epoch_ns_for(after, provider)?;
-        debug_assert_eq!(after_possible.len(), 1);
-        // 12. Let offsetBefore be GetOffsetNanosecondsFor(timeZone,
-        //     beforePossible[0]).
-        let offset_before = self.get_offset_nanos_for(before_possible[0].0, provider)?;
-        // 13. Let offsetAfter be GetOffsetNanosecondsFor(timeZone,
-        //     afterPossible[0]).
-        let offset_after = self.get_offset_nanos_for(after_possible[0].0, provider)?;
-        // 14. Let nanoseconds be offsetAfter - offsetBefore.
-        let nanoseconds = offset_after - offset_before;
-        // 15. Assert: abs(nanoseconds) ≤ nsPerDay.
-        // 16. If disambiguation is earlier, then
-        if disambiguation == Disambiguation::Earlier {
-            // a. Let timeDuration be TimeDurationFromComponents(0, 0, 0, 0, 0, -nanoseconds).
-            let time_duration = NormalizedTimeDuration(-nanoseconds);
-            // b. Let earlierTime be AddTime(isoDateTime.[[Time]], timeDuration).
-            let earlier_time = iso.time.add(time_duration);
-            // c. Let earlierDate be BalanceISODate(isoDateTime.[[ISODate]].[[Year]],
-            // isoDateTime.[[ISODate]].[[Month]],
-            // isoDateTime.[[ISODate]].[[Day]] + earlierTime.[[Days]]).
-            let earlier_date = IsoDate::balance(
-                iso.date.year,
-                iso.date.month.into(),
-                i32::from(iso.date.day) + earlier_time.0,
-            );
-
-            // d. Let earlierDateTime be
-            // CombineISODateAndTimeRecord(earlierDate, earlierTime).
-            let earlier = IsoDateTime::new_unchecked(earlier_date, earlier_time.1);
-            // e. Set possibleEpochNs to ? GetPossibleEpochNanoseconds(timeZone, earlierDateTime).
-            let possible = self.get_possible_epoch_ns_for(earlier, provider)?;
-            // f. Assert: possibleEpochNs is not empty.
-            // g. Return possibleEpochNs[0].
-            return Ok(possible[0]);
+    /// Returns the offsets (in nanoseconds) before and after the transition whose gap contains
+    /// the wall-clock reading `local`, given as nanoseconds from the epoch.
+    fn gap_offsets_around(
+        &self,
+        local: i128,
+        provider: &impl TimeZoneProvider,
+    ) -> TemporalResult<(i128, i128)> {
+        const NS_PER_DAY: i128 = 24 * NS_IN_HOUR;
+        if let Self::IanaIdentifier(identifier) = self {
+            // A reading skipped by the transition at `t` lies in `t + before..t + after` and
+            // offsets are shorter than a day, so `t` is within a day of the reading taken as
+            // UTC. Walk the transitions of that window, newest first.
+            let mut cursor = local + NS_PER_DAY;
+            while cursor > local - NS_PER_DAY {
+                let after = provider.get_named_tz_offset_nanoseconds(identifier, cursor)?;
+                let Some(transition) = after.transition_epoch else {
+                    break;
+                };
+                let transition = i128::from(transition) * 1_000_000_000;
+                if transition > cursor {
+                    break;
+                }
+                let before = provider.get_named_tz_offset_nanoseconds(identifier, transition - 1)?;
+                let offset_before = i128::from(before.offset) * 1_000_000_000;
+                let offset_after = i128::from(after.offset) * 1_000_000_000;
+                if (transition + offset_before..transition + offset_after).contains(&local) {
+                    return Ok((offset_before, offset_after));
+                }
+                cursor = transition - 1;
+            }
         }
-        // 17. Assert: disambiguation is compatible or later.
-        // 18. Let timeDuration be TimeDurationFromComponents(0, 0, 0, 0, 0, nanoseconds).
-        let time_duration = NormalizedTimeDuration(nanoseconds);
-        // 19. Let laterTime be AddTime(isoDateTime.[[Time]], timeDuration).
-        let later_time = iso.time.add(time_duration);
-        // 20. Let laterDate be BalanceISODate(isoDateTime.[[ISODate]].[[Year]],
-        // isoDateTime.[[ISODate]].[[Month]], isoDateTime.[[ISODate]].[[Day]] + laterTime.[[Days]]).
-        let later_date = IsoDate::balance(
-            iso.date.year,
-            iso.date.month.into(),
-            i32::from(iso.date.day) + later_time.0,
-        );
-        // 21. Let laterDateTime be CombineISODateAndTimeRecord(laterDate, laterTime).
-        let later = IsoDateTime::new_unchecked(later_date, later_time.1);
-        // 22. Set possibleEpochNs to ? GetPossibleEpochNanoseconds(timeZone, laterDateTime).
-        let possible = self.get_possible_epoch_ns_for(later, provider)?;
-        // 23. Set n to possibleEpochNs's length.
-        let n = possible.len();
-        // 24. Assert: n ≠ 0.
-        // 25. Return possibleEpochNs[n - 1].
-        Ok(possible[n - 1])
+        // The provider does not expose the transition: use the offsets a day either side.
+        Ok((
+            self.get_offset_nanos_for(local - NS_PER_DAY, provider)?,
+            self.get_offset_nanos_for(local + NS_PER_DAY, provider)?,
+        ))
     }
 
     pub(crate) fn get_start_of_day(
